@@ -388,6 +388,6 @@ pub fn run(ctx: &mut Ctx) {
     for len in 0..=64u64 {
         ctx.case("boundary", len, |c, r| boundary(c, r, len as usize));
     }
-    let n = ctx.by_tier(300_000, 50_000_000);
+    let n = ctx.by_tier(900_000, 50_000_000);
     ctx.random_cases("history", n, |c, r| history(c, r));
 }
